@@ -13,6 +13,7 @@ Together: a lane's result can be influenced by its neighbours only through which
 their data.  That the tiers agree to within the accuracy bound is C10/C11 and is not decided here.
 """
 import collections
+import json
 import os
 from concurrent.futures import ProcessPoolExecutor
 
@@ -396,7 +397,7 @@ def run(a):
     for c in CF.CONFIGS:
         l = []
         for o in O.OPS:
-            if 'C13' not in o.props or getattr(o, 'whole', False):
+            if 'C13' not in o.props or (getattr(o, 'whole', False) and not getattr(o, 'elementwise', False)):
                 continue
             for t in o.types:
                 vs = L.variants_of(o, t, c, a.tier)
@@ -407,6 +408,9 @@ def run(a):
                     l.append((o.name, t.name, v))
         obls[c.name] = l
     res = L.run_obligations(obls)
+    ufloor_p = os.path.join(os.path.dirname(os.path.dirname(os.path.abspath(__file__))), 'catalogue', 'decided_c13_uniform.json')
+    ufloor = json.load(open(ufloor_p)) if os.path.exists(ufloor_p) else {}
+    uniform_now = {}
     stats = collections.Counter()
     undec = []
     for x in res:
@@ -427,6 +431,18 @@ def run(a):
             r.violation(key, 'output lane %s of %s<%s> on %s depends on %s (source %s)' % (dv.get('lane'), x['op'], x['ty'], x['cfg'], dv.get('depends_on'), ' <- '.join((x.get('chain') or [])[:3])), x)
         else:
             stats['lane-local'] += 1
+            # position uniformity: the same value in any lane gives the same result (statement of C13): every lane's term
+            # is lane 0's term with the lane index renamed.  Claimed for the obligations where it held when the floor was
+            # frozen (catalogue/decided_c13_uniform.json); lost later = violation
+            ukey = 'uniform|%s|%s|%s|%s' % (x['op'], x['ty'], x['cfg'], ''.join('%s%s' % (k_, L._vstr((x.get('var') or {})[k_])) for k_ in sorted(x.get('var') or {})))
+            if x.get('uniform') is True:
+                uniform_now[ukey] = 1
+                if ukey in ufloor:
+                    nob += 1
+            elif ukey in ufloor:
+                nob += 1
+                r.violation(ukey, 'lane %s of %s<%s> on %s is not the same function of its own operand lane as lane 0 is of lane 0: the result depends on the lane POSITION (source %s)' % (
+                    (x.get('nonuniform_lanes') or ['?'])[0], x['op'], x['ty'], x['cfg'], ' <- '.join((x.get('chain') or [])[:3])), x)
             if len(samples) < 3 and x['cfg'] == 'avx' and x['op'] in ('mul', 'lt', 'shl'):
                 samples.append({'obligation': key, 'rule': 'atoms of output lane i are a subset of lane i of the operands', 'verdict': 'lane-local'})
     # ---- (ii) elementary functions
@@ -446,6 +462,7 @@ def run(a):
                     samples.append({'obligation': 'math|%s|%s' % (n, m['cfg']), 'rule': 'fixpoint lane dependence incl. control dependence; %d output lanes each depend on their own lane only' % lanes, 'verdict': 'lane-local'})
             for (n, lane, atoms, nbad, where) in m['bad']:
                 nob += 1
+                stats['math dependence violations'] += 1
                 r.violation('math|%s|%s' % (n, m['cfg']), 'output lane %d of %s (%s) depends on %s%s (%d lanes affected)' % (
                     lane, n, m['cfg'], '; '.join(atoms[:3]), ' -- first seen at %s' % where if where else '', nbad), {'fn': n, 'cfg': m['cfg'], 'lane': lane, 'atoms': atoms, 'source': where})
     # ---- (iii) masked updates under whole-batch any()
@@ -476,7 +493,7 @@ def run(a):
                 samples.append({'obligation': 'masked-update|%s|%s|%s' % (m['oks'][0][0], m['oks'][0][1], m['cfg']), 'rule': 'select(m, new, OLD) at the join of if(any(M)): lanes outside m keep the value they had', 'verdict': 'kept'})
     if stats['masked update keeps the old value'] < 90:
         r.broke('masked-update rule found only %d sites' % stats['masked update keeps the old value'])
-    if stats['lane-local'] < 5000 or stats['math lane-local'] < 500:
+    if stats['lane-local'] + len(r.violations) < 5000 or stats['math lane-local'] + stats['math dependence violations'] < 500:
         r.broke('coverage below the floor: %s' % dict(stats))
     nbad = len(set(k for (k, w, d) in r.violations)) + len(set(x[1] for x in r.known_hits))
     cov = {'obligations': nob, 'discharged': nob - nbad, 'checker_cmd': 'python3 /verif/check.py C13 --tier %s' % a.tier,
@@ -485,5 +502,10 @@ def run(a):
            'counts': dict(stats), 'undecided': len(undec), 'undecided_list': undec[:100], 'samples': samples, 'evaluations': nob, 'distinct_nontrivial': nob - nbad,
            'rule': '(i) exact element-wise ops x types x 21 configurations from lane terms; (ii) %d math wrappers x %s by dependence fixpoint; (iii) lost-update rule at the joins of if(any(M)) regions of the same wrappers' % (len(c14.math_tu('xsimd::sse2')[1]), MATH_CONFIGS),
            'exhaustive': True, 'headers_sha256': build.headers_hash()}
+    if getattr(a, 'freeze', False):
+        json.dump(uniform_now, open(ufloor_p, 'w'), indent=0, sort_keys=True)
+        print('froze %d position-uniformity obligations' % len(uniform_now))
+    cov['position_uniform_obligations'] = len([k for k in uniform_now if k in ufloor])
+    cov['position_uniform_not_claimed'] = sorted(k for k in uniform_now if k not in ufloor)[:20]
     return r.finish(cov, ['cross-lane CONTROL through any()/all()/none() is allowed (tier selection); that tiers agree within the accuracy bound is C10/C11 and not decided -- except for the lost-update rule (iii): a per-lane select inside an if(any(M)) block that restarts from the base of earlier masked updates is reported',
                           'the elementary functions are analysed on sse4_1/avx2/avx512f; their per-architecture primitives are covered by part (i)'])
